@@ -83,6 +83,8 @@ def main():
                 continue
             sigs = [l.strip()[len("signature="):] for l in rr.stdout.splitlines() if l.strip().startswith("signature=")]
             results[p] = {"exit": rr.returncode, "tier": tier, "signatures": sigs[:5]}
+            if rr.returncode in (0, 1) and not os.environ.get("VERIF_SEED") and not extra:
+                meta.setdefault("by_seed", {}).setdefault("1", {})[p] = rr.returncode
             if rr.returncode == 2:
                 results[p]["stderr"] = rr.stderr[-500:]
         meta["caught_by"] = sorted(p for p, v in results.items() if v["exit"] == 1)
